@@ -1,7 +1,7 @@
 #!/bin/bash
 # Apply every seeded change in turn and report whether the owning check (quick tier) catches it.
 cd /verif
-for d in seeded/*/; do
+for d in seeded/C*/; do
   id=$(basename $d)
   out=$(SKIP_TESTS=1 tools/seeded.sh $id 2>&1)
   if echo "$out" | grep -q "PATCH DOES NOT APPLY"; then echo "$id not-applicable (patch does not apply to the repaired tree)"; continue; fi
